@@ -250,6 +250,64 @@ def zero_unit():
     return Unit("C06.zero_at_generating_parameters", h, bounds={"times": 2, "observed_states": ["J", "S"]}, program={"loss": "Square", "zero": True})
 
 
+def sequence_unit(kind="calls"):
+    """call HISTORIES on one loss object / one shared model: the parameters in force in every cost evaluation must be
+    the ones supplied to THAT call, whatever was evaluated in between (another point through sensitivity, a
+    second loss object on the same model, a direct assignment to the model)"""
+    def h(c):
+        sym_mode = c.mode == "sym"
+        ctxs = []
+        if sym_mode:
+            ctxs = [stubs.integrator_stubs(c, eig="fixed"), stubs.patched(*loss_patches(c))]
+        book = ctxs[0].__enter__() if ctxs else None
+        if ctxs:
+            ctxs[1].__enter__()
+        try:
+            L = build_loss(c, "Square", ("J", "S"), None, None, 2, False, "scalar")
+            A = L.theta_arg
+            B = arr(c, [c.real("thB_beta", lo=0.05, hi=0.3), c.real("thB_gamma", lo=0.2, hi=1.0)])
+
+            def expect(out, theta, label):
+                bound = {"beta": theta[0], "gamma": theta[1]}
+                if sym_mode:
+                    integ, fl = last_flow(book)
+                    for kind_, ig, tp_, yp, val in book.probes:
+                        if ig is integ and kind_ == "f":
+                            c.prove(all_close(np.asarray(val, dtype=object)[:3], sir3_rhs(yp[:3], [bound["beta"], bound["gamma"]]), c),
+                                    "parameters in force during integration are the ones supplied to this call" + label)
+                    rows = [book.at(fl, ti) for ti in L.t]
+                else:
+                    rows = ref_solution([bound["beta"], bound["gamma"]], [float(v) for v in L.x0], L.t0, L.t)
+                yhat = [[rows[i][k] for k in L.idx] for i in range(L.n)]
+                total, _ = ref_cost(c, L, yhat)
+                c.prove(near(out, total, c, tol=2e-5), "cost == loss formula at the parameters supplied to this call" + label)
+            if kind == "calls":
+                expect(L.obj.cost(A), A, " [cost(A)]")
+                L.obj.sensitivity(B)
+                expect(L.obj.cost(A), A, " [cost(A) after sensitivity(B)]")
+                expect(L.obj.cost(B), B, " [cost(B)]")
+                L.obj.cost(A)
+                L.obj.jac(B)
+                expect(L.obj.cost(A), A, " [cost(A) after cost(A), jac(B)]")
+            elif kind == "shared_model":
+                from pygom.loss import ode_loss
+                y2 = arr(c, [c.real("z%d" % i, lo=0.5, hi=30) for i in range(2)])
+                L2obj = ode_loss.SquareLoss(B, L.model, L.x0, L.t0, arr(c, L.t), y2, "R")
+                expect(L.obj.cost(A), A, " [loss1.cost(A)]")
+                L2obj.cost(B)
+                expect(L.obj.cost(A), A, " [loss1.cost(A) after loss2.cost(B) on the same model]")
+            else:
+                expect(L.obj.cost(A), A, " [cost(A)]")
+                L.model.parameters = [B[0], B[1]]
+                expect(L.obj.cost(A), A, " [cost(A) after the user re-assigned the model's parameters]")
+        finally:
+            if ctxs:
+                ctxs[1].__exit__(None, None, None)
+                ctxs[0].__exit__(None, None, None)
+    return Unit("C06.sequence[%s]" % kind, h, bounds={"history": kind, "times": 2, "observed_states": ["J", "S"]},
+                program={"loss": "Square", "sequence": kind}, tol=2e-5, max_paths=50)
+
+
 SELECTIONS = [("S",), ("R",), ("J", "S"), ("S", "R"), ("R", "J"), ("S", "J", "R"), ("R", "S", "J")]
 TARGETS = [None, ("beta",), ("gamma",), ("gamma", "beta"), ("beta", "gamma")]
 
@@ -268,7 +326,7 @@ class C06(Check):
     assumptions = ["integrator accuracy (C02's assumption)", "floats as reals", "valid domain (positive predictions/observations for likelihood losses)"]
 
     def units(self, tier, seed):
-        us = [zero_unit()]
+        us = [zero_unit(), sequence_unit("calls"), sequence_unit("shared_model"), sequence_unit("model_reassigned")]
         sels = SELECTIONS if tier != "quick" else [("S",), ("J", "S"), ("R", "J"), ("R", "S", "J")]
         tgts = TARGETS if tier != "quick" else [None, ("gamma", "beta"), ("gamma",)]
         for sel in sels:
